@@ -60,7 +60,8 @@ SEQUENCED = [(_dl("p"), [_st("q"), _dl("q")]), (_tg("q"), [_dl("p"), _tg("p")]),
              ({"op": "dii", "c": X, "cks": "wrong"}, [_dl("p"), _st("p")]), (_dl("p"), [_st("q"), _st("s")])]
 VAL_CALLS = [{"op": "store", "pid": "p", "c": X, "cks": "right"}, {"op": "store", "pid": "q", "c": X, "size": "right"},
              {"op": "store", "pid": "p", "c": X, "cks": "right", "cks_algo": "md5", "size": "right"}, {"op": "store", "pid": "q", "c": X},
-             {"op": "store", "pid": None, "c": X}]
+             {"op": "store", "pid": None, "c": X}, {"op": "store", "pid": "p", "c": X, "cks": "wrong"},
+             {"op": "store", "pid": "p", "c": X, "size": "wrong"}]
 BASE = {"cfg": {"algo": "SHA-256", "depth": 2, "width": 2}, "contents": [{"hex": "5858585858"}, {"hex": "5959"}], "docs": []}
 
 
@@ -181,7 +182,8 @@ def enumerate_cases(tier):
     # 'validated stores': first-time stores of the SAME content under different pids where the callers pass (correct) validation
     # data - the branch of the data stage that runs only with a checksum / an expected size, next to another publisher
     for sname in ("empty", "X-unreferenced"):
-        for a, b in ((0, 1), (0, 3), (2, 1), (2, 2), (0, 4)):
+        # (5, 6: stores whose validation data is WRONG - they must be refused without harming the other caller's store of the same bytes)
+        for a, b in ((0, 1), (0, 3), (2, 1), (2, 2), (0, 4), (5, 3), (6, 3), (5, 1)):
             for first in (0, 1):
                 yield dict(BASE, start_name=sname, start=STARTS[sname], calls=[VAL_CALLS[a], VAL_CALLS[b]], mode="cd",
                            max_preempt=2 if tier == "quick" else 3, firsts=[first], family="validated-stores")
